@@ -27,14 +27,6 @@ pub fn arc_str_clone_same(a: &std::sync::Arc<str>) -> std::sync::Arc<str> {
     unsafe { core::ptr::read(a) }
 }
 
-/// `SmolStr::clone` for inline strings is a `ptr::read` of the whole value, i.e. an untyped byte copy that CBMC's
-/// constant propagation cannot see through (a cloned concrete id then compares *symbolically* with the ids in a map).
-/// The stand-in clones an inline string byte by byte with the library's own `new_inline`; every id in the harnesses
-/// is <= 23 bytes, so the reference-counted variant is never involved (`new_inline` panics otherwise).
-pub fn smolstr_clone(s: &smol_str::SmolStr) -> smol_str::SmolStr {
-    smol_str::SmolStr::new_inline(s.as_str())
-}
-
 /// `Decimal::from_f64` on the exact-rational model: defined on the small non-negative integers the harnesses use
 /// for public-trade prices (the real conversion returns the same value for them), `None` otherwise.
 pub fn decimal_from_f64(n: f64) -> Option<rust_decimal::Decimal> {
